@@ -411,11 +411,13 @@ impl<'a> From<Piece<'a>> for Chunk {
                         None => "%+".to_owned(),
                     };
 
-                    // an invalid format would otherwise only fail (and panic) when a record is encoded
-                    if chrono::format::StrftimeItems::new(&format)
-                        .any(|item| item == chrono::format::Item::Error)
+                    // an invalid format would otherwise only fail (and panic) when a record is
+                    // encoded; some specifiers (e.g. `%#z`) parse fine and fail only when formatting
                     {
-                        return Chunk::Error(format!("invalid date format `{}`", format));
+                        use std::fmt::Write as _;
+                        if write!(String::new(), "{}", Utc::now().format(&format)).is_err() {
+                            return Chunk::Error(format!("invalid date format `{}`", format));
+                        }
                     }
 
                     let timezone = match formatter.args.get(1) {
